@@ -1211,7 +1211,8 @@ func (v Value) addField(key string, idx int, val Value) {
 
 func (v Value) syncFields(b Value) {
 	cur := b.value.(*structT)
-	for key, idx := range cur.Lookup {
+	for _, key := range cur.Order { // declaration order: new fields of a redeclared type are appended as declared
+		idx := cur.Lookup[key]
 		value, _ := cur.Fields.Get(idx)
 		v.addField(key, idx, value)
 	}
